@@ -21,8 +21,9 @@
    smaller, offset): besides the pointwise [shown] specification, every painted cell is a
    buffer cell of some node at its offset, inside the window's clip and inside the rectangle
    of every ancestor of that node below the root (C14_render_clipped_to_all_ancestors); the
-   root's own clip is the window it is handed (Surface.render's interface), so children of a
-   root that is smaller than its window are clipped to that window, not to the root surface. *)
+   root's own clip is the window it is handed (Surface.render's interface); App.Run (fix 185add5)
+   hands the root a window of the root's own size, so under App.Run every painted cell also lies
+   inside the root surface (C14_app_render_clipped_to_root; the old call is refuted). *)
 From Vx Require Import base.Prelude model.Surface model.Widgets model.WidgetsHist
   proofs.SurfaceProofs proofs.WidgetsProofs proofs.RenderProofs proofs.PaintProofs
   proofs.WidgetsHistProofs.
@@ -376,6 +377,41 @@ Theorem C14_render_any_window_meets_spec : forall cols rows frames (s : surface 
 Proof. exact renderwin_run_ok. Qed.
 Print Assumptions C14_render_any_window_meets_spec.
 
+(* App.Run's render call (after fix 185add5): the root surface is rendered into
+   vx.Window().New(0, 0, rootW, rootH).  For every tree, every terminal size and every screen,
+   every painted cell lies inside the ROOT surface's rectangle as well (and inside the terminal,
+   and inside every ancestor on its path): the root clips its children like every other surface.
+   Corollary of C14_render_clipped_to_all_ancestors and the clip of Window.New at the root. *)
+Theorem C14_app_render_clipped_to_root :
+  forall (A : Type) (sorter : list Z -> list nat) (s : surface A) cols rows (sc : screen A),
+  wf_tree s -> screen_wf sc ->
+  exists ps sc', render_gen sorter (app_window cols rows s) s = Some ps /\ screen_apply sc ps = Some sc' /\
+    forall x y, 0 <= x < sc_cols sc -> 0 <= y < sc_rows sc ->
+      screen_get sc' x y = screen_get sc x y \/
+      exists c path, screen_get sc' x y = Some c /\
+        in_rect 0 0 (s_w s) (s_h s) x y = true /\ in_rect 0 0 cols rows x y = true /\
+        paint_path s 0 0 x y c path /\ Forall (fun r => rect_has r x y = true) path.
+Proof. intros A sorter s cols rows sc; apply apprun_clipped_to_root. Qed.
+Print Assumptions C14_app_render_clipped_to_root.
+
+(* the model of App.Run's frame passes the decidable check applied to the real App.Run's frames:
+   [apprun_ok] = renderwin_ok for that window AND [root_clip_ok] (no painted cell outside the
+   root surface) *)
+Theorem C14_app_render_meets_spec : forall cols rows (s : surface Z), 0 <= cols -> 0 <= rows ->
+  apprun_ok ((cols, rows, s), apprun_run (cols, rows, s)) = true.
+Proof. exact apprun_run_ok. Qed.
+Print Assumptions C14_app_render_meets_spec.
+
+(* the call before the fix (window = the whole terminal) violated the clause: a 4x2 root in a
+   6x4 terminal with a child at (3,1) painted cells 12, 13, 14 outside the root *)
+Theorem C14_old_app_render_refuted :
+  let t := Surf 4 2 [1;2;3;4;5;6;7;8] [(3, 1, 0, Surf 2 2 [11;12;13;14] [])] in
+  apprun_old_run (6, 4, t) = (0, [[1;2;3;4;0;0]; [5;6;7;11;12;0]; [0;0;0;13;14;0]; [0;0;0;0;0;0]]) /\
+  apprun_ok ((6, 4, t), apprun_old_run (6, 4, t)) = false /\
+  apprun_run (6, 4, t) = (0, [[1;2;3;4;0;0]; [5;6;7;11;0;0]; [0;0;0;0;0;0]; [0;0;0;0;0;0]]).
+Proof. cbv zeta. repeat split; vm_compute; reflexivity. Qed.
+Print Assumptions C14_old_app_render_refuted.
+
 (* non-vacuity / the class: a 4x2 root in a 6x4 terminal (its window is larger than the root)
    wrapping a same-size child at (0,0) whose own child overhangs it by one row and one column:
    only the grandchild's cell inside BOTH the child and the window is painted; the same tree in a
@@ -399,7 +435,8 @@ Proof. split; [apply tree_wf_b_sound; vm_compute; reflexivity | vm_compute; refl
 (* ================================================================== layout + render composed *)
 
 (* What App.layout + Surface.render do for any tree of built-in widgets and any window size:
-   Draw with Max = window size, render the result into the root window of a cleared screen.
+   Draw with Max = window size, render the result into a window of the root surface's own size
+   (App.Run's call after fix 185add5) on a cleared screen.
    Unless a documented-unbounded panic occurs nothing panics, and every screen cell shows what
    [shown] prescribes for the drawn tree (blank where the tree paints nothing). *)
 Theorem C14_layout_then_render : forall ws cols rows, 0 <= cols < 65536 -> 0 <= rows < 65536 ->
@@ -410,7 +447,8 @@ Theorem C14_layout_then_render : forall ws cols rows, 0 <= cols < 65536 -> 0 <= 
         sc_cols sc = cols /\ sc_rows sc = rows /\
         forall x y, 0 <= x < cols -> 0 <= y < rows ->
           screen_get sc x y =
-            Some (match shown stable_perm s 0 0 x y with Some c => c | None => wblank end)
+            Some (match (if in_rect 0 0 (s_w s) (s_h s) x y then shown stable_perm s 0 0 x y else None) with
+                  | Some c => c | None => wblank end)
   end.
 Proof. exact layout_then_render. Qed.
 Print Assumptions C14_layout_then_render.
